@@ -19,7 +19,7 @@ CHECKS = {
    "Held on generated batch/get/delete/iterate sequences on memkv, Badger and the TiKV mock, each also behind the production metrics wrapper with the real Prometheus client: all-or-nothing batches, conditions evaluated exactly and reported as failed conditions, iterators bounded, ordered and snapshot-consistent; concurrent readers do not disturb each other and concurrent conditional writers are atomic (exactly one put-if-absent wins, no CAS increment is lost).",
    "only the documented contract of pkg/storage/interface.go is demanded; TTL always 0; ops of one batch touch distinct keys"),
  "C08": ("exploration", "monitor over generated compaction/read sequences: floor=max(accepted), stored record and refusal of reads below it", "5 C08",
-   "Held on generated sequences of compaction requests (increasing, repeated, older, zero, above current) interleaved with writes: the stored record never dropped below the highest accepted revision and every List/ListByStream below it was refused, on the compacting node and on a second node over the same store, including streams spanning several 300-kv batches (no data before the refusal); reads at/above it equal the reference snapshot.",
+   "Held on generated sequences of compaction requests (increasing, repeated, older, zero, above current) interleaved with writes: the stored record never dropped below the highest accepted revision and every List/ListByStream below it was refused, on the compacting node and on a second node over the same store, including streams spanning several 300-kv batches (no data before the refusal), and when two compaction requests overlap (the first held at an access to the record while the second completes); reads at/above it equal the reference snapshot.",
    "only compactions that returned without error raise the monitor's floor"),
  "C10": ("exploration", "generated inputs with round-trip/order oracles on the real coder, real memkv iteration and Backend.List", "5 C10",
    "Held on generated keys/revisions/bounds over the documented alphabet: round trip, order preservation, index-first contiguity, exact enclosure of raw ranges and prefixes by the computed internal bounds, also through Backend.List on engines that split the range into several partitions.",
@@ -31,7 +31,7 @@ CHECKS = {
    "Held on generated histories under generated partitionings (borders on index records, inside one key's versions, at never-stored keys, shuffled): List, Count, whole-interval stream, per-advertised-partition streams and the etcd range stream each contain every qualifying key once with the right version; batches name the read revision; one terminator, last; a cleanly terminated stream after a transient iterator error (partition retried) still carries each key once.",
    "borders are the forms an engine splitting at existing keys can produce; TiKV regions are those of the mock cluster"),
  "C05": ("exploration", "event-stream monitor against acknowledged-write ground truth; interleavings placed by blocking verif hook points; overflow race placed at the removal hook", "5 C05",
-   "Held on stress, hook-placed and overflow executions (counts in evidence): every accepted watch received a prefix of the matching acknowledged changes with exact payloads, strictly increasing, complete through an acknowledged sentinel while open; refusals only outside the cached window.",
+   "Held on stress (also on a fresh backend taking over an existing store with an empty event cache), hook-placed and overflow executions (counts in evidence): every accepted watch received a prefix of the matching acknowledged changes with exact payloads, strictly increasing, complete through an acknowledged sentinel while open; refusals only outside the cached window.",
    "hook callbacks block only between lock-protected sections (a descheduled goroutine), so no impossible interleaving is manufactured"),
  "C06": ("exploration", "client-boundary reconstruction check: List@R + watch events <= R' == List@R', sentinel-delimited, under concurrent writers and compaction", "5 C06",
    "Held on observer loops run against concurrent writers (successes and failures) and a compactor on memkv, Badger and the TiKV mock: the reconstruction equals the later list exactly.",
@@ -52,7 +52,7 @@ CHECKS = {
    "Held on generated old-leader histories with bursts of failed writes and lock renewals followed by a fail-over (all engines; to nodes that stood by polling the lock, in half of them also serving concurrent follower reads all along; a third continuing with a second term and a second fail-over), a close+reopen (Badger), or a restart through the real Campaign / on-elected callback with requests over gRPC: the new leader's start and first revisions exceed every stored revision, guarded writes on existing keys succeed, earlier writes are listed.",
    "in 7 of 8 cases the election is driven in-process in client-go's call order and leader.go's on-elected action is applied by the harness; every 8th case uses the real Campaign loop"),
  "C16": ("exploration", "differential run of generated etcd request histories against an etcd-semantics reference model at the real etcd.RPCServer handlers, incl. a generated family of unsupported transactions with a state-unchanged monitor", "5 C16",
-   "Held (apart from the recorded Count finding) on generated histories of the four Kubernetes transaction shapes with correct/stale/zero expectations, point/range/limited/old-revision reads, count-only, a prefix watch with prev_kv, 16 kinds of unsupported transactions which must be rejected and leave the store unchanged, and concurrent etcd clients whose failed compares never return the compared revision.",
+   "Held (apart from the recorded Count finding) on generated histories of the four Kubernetes transaction shapes with correct/stale/zero expectations, point/range/limited/old-revision reads, count-only, a prefix watch with prev_kv, 16 kinds of unsupported transactions which must be rejected and leave the store unchanged, and concurrent etcd clients whose failed compares never return the compared revision while concurrent Range answers are the state at their header revision.",
    "handlers are called directly; EnableEtcdCompatibility on; the concurrent failure-branch rule is run on memkv/Badger only (the TiKV mock maps write conflicts to failed compares)"),
  "C17": ("exploration", "expiry monitor over an engine dump + reads + watch stream, with TTL shortened through the verif hook / the scanner's public config, ages measured on the monotonic clock", "5 C17",
    "Held on generated histories mixing Event keys with look-alike keys on engines without native TTL (built-in compaction expiry, scanner driven directly and through a backend) and with native TTL (memkv, Badger), plus 1h-TTL controls: whatever lost records was an Event under <prefix>/events/, older than the TTL, removed wholly, creatable again, and no watch event was produced; also for events deleted and created again, with a client update placed inside the expiry and with a storage error on the removal of an index record.",
@@ -60,8 +60,8 @@ CHECKS = {
  "C18": ("exploration", "call-recording backend + scripted peers under the real revision syncer (role matrix); two-node follower-read monitor with interleavings placed by the revision verif hooks", "5 C18",
    "Held on the full role matrix (every request type of both APIs, watches from the next revision and from revision 0, x leader/follower x proxy on/off x leader reachable/unreachable/400/500) (incl. a recorded leader that is a real node which is not leading, answered by pkg/server's real /status handler) and on two-node runs with concurrent follower reads while the leader writes, including the placed schedules 'reader delayed between fetch and set' and 'five readers setting different revisions at the same instant'.",
    "the etcd proxy and the election are stubs; the leader's status endpoint re-serves the logic of server.revisionHandler"),
- "C20": ("exploration", "generated hostile protobuf-round-tripped requests against a node wired with the real Prometheus client; panic/crash capture, metric label-set recorder, probe write + conservation monitor after every request", "5 C20",
-   "Held on a burst of concurrent first requests and on generated hostile requests to both APIs (every 4th case over a real loopback gRPC connection with the production interceptors) with production metrics: every call returned, nothing panicked (in the handler or in background goroutines), no metric name was emitted with two label sets, and after every request a probe write became readable and watchable.",
+ "C20": ("exploration", "generated hostile protobuf-round-tripped requests against a node wired with the real Prometheus client; panic/crash capture, metric label-set recorder (per node and process-wide), probe write + conservation monitor after every request; metric call-site tour over two real nodes", "5 C20",
+   "Held on a burst of concurrent first requests and on generated hostile requests to both APIs (every 4th case over a real loopback gRPC connection with the production interceptors) with production metrics: every call returned, nothing panicked (in the handler or in background goroutines), no metric name was emitted with two label sets, and after every request a probe write became readable and watchable. Every 24th case tours the metric call sites a healthy leader never reaches (two real nodes from server.NewServer, follower role, faults, overflow) under a process-wide metric-signature table; names reached are listed in evidence.",
    "3 of 4 cases call handlers in-process; election stubbed; reached request types and metric names are listed in evidence"),
 }
 def cmd(p, tier): return "./bin/kbcheck %s --tier %s" % (p, tier)
